@@ -319,4 +319,42 @@ func init() {
 				Quick: map[string]int{"N": 2, "REPARSE": 0, "NOCR": 0}, Thorough: map[string]int{"N": 3, "REPARSE": 0, "NOCR": 0}, Variants: c15Variants(36), MaxSteps: 6_000_000},
 		},
 	})
+
+	// ---------------------------------------------------------------- C40 / C41
+	register(&checkSpec{
+		ID:   "C40",
+		Rule: "P producers (FileChanged on a name whose directory is a symbolic byte: same or different directories) and C consumers (Fetch) run as interpreted goroutines over the real Changes (mutex, condition variable, map); every scheduling decision at a visible operation (Lock, Unlock with waiters, Cond.Wait/Broadcast wake-ups) and the start of the map range in Fetch are symbolic variables the explorer forks over; when nothing can run any more the final state is checked",
+		Assumptions: []string{
+			"bound: P producers, C consumers, at most PB pre-emptive context switches per schedule (CHESS-style bound); non-pre-emptive switches are unbounded",
+			"pre-emption only at synchronisation operations (the code under test is data-race free under its mutex); sync.Mutex / sync.Cond are modelled by the engine (FIFO wake-up order for Signal)",
+			"native replay of a schedule-dependent counter-example repeats the scenario 150 times under the Go scheduler; a violation that does not show up there is listed as not reproduced, not reported",
+		},
+		Harnesses: []harnessSpec{
+			{Name: "VxC40", Pkg: "github.com/goplus/xgo/x/watcher", Files: []string{"c40/c40.go"}, Goroutine: true, ReplayTimeout: 120 * time.Second,
+				Quick: map[string]int{"P": 2, "C": 2, "PB": 2}, Thorough: map[string]int{"P": 2, "C": 2, "PB": 3}, MaxSteps: 3_000_000},
+			{Name: "VxC40", Pkg: "github.com/goplus/xgo/x/watcher", Files: []string{"c40/c40.go"}, Goroutine: true, ReplayTimeout: 120 * time.Second,
+				Quick: map[string]int{"P": 2, "C": 1, "PB": -1}, Thorough: map[string]int{"P": 3, "C": 1, "PB": 2}, MaxSteps: 3_000_000},
+			{Name: "VxC40", Pkg: "github.com/goplus/xgo/x/watcher", Files: []string{"c40/c40.go"}, Goroutine: true, ReplayTimeout: 120 * time.Second,
+				Quick: map[string]int{"P": 1, "C": 2, "PB": -1}, Thorough: map[string]int{"P": 1, "C": 3, "PB": 2}, MaxSteps: 3_000_000},
+		},
+	})
+	register(&checkSpec{
+		ID:   "C41",
+		Rule: "a connection from the real NewConn over harness reader/writer ends; one writer (W writes of symbolic bytes), one reader (R reads), optionally one closer run as interpreted goroutines next to the two feeder goroutines; every scheduling decision at a channel / select / mutex operation and every choice among ready select cases is a symbolic variable the explorer forks over; checked at quiescence: delivery in order and unmodified, EOF for I/O pending or started after Close, nothing left blocked after Close",
+		Assumptions: []string{
+			"bound: W writes, R reads, at most PB pre-emptive context switches per schedule (CHESS-style); unbuffered channels are modelled as rendezvous between parked offers",
+			"a Write that was pending when Close came may report EOF although its data reached the underlying writer (allowed by the statement)",
+			"native replay repeats nothing (single run under the Go scheduler); schedule-dependent counter-examples that do not reproduce are listed as not reproduced",
+		},
+		Harnesses: []harnessSpec{
+			{Name: "VxC41", Pkg: "github.com/goplus/xgo/x/fakenet", Files: []string{"c41/c41.go"}, Goroutine: true,
+				Quick: map[string]int{"W": 1, "R": 0, "CLOSE": 1, "PB": 1}, Thorough: map[string]int{"W": 1, "R": 0, "CLOSE": 1, "PB": 2}, MaxSteps: 3_000_000},
+			{Name: "VxC41", Pkg: "github.com/goplus/xgo/x/fakenet", Files: []string{"c41/c41.go"}, Goroutine: true,
+				Quick: map[string]int{"W": 0, "R": 1, "CLOSE": 1, "PB": 1}, Thorough: map[string]int{"W": 0, "R": 1, "CLOSE": 1, "PB": 2}, MaxSteps: 3_000_000},
+			{Name: "VxC41", Pkg: "github.com/goplus/xgo/x/fakenet", Files: []string{"c41/c41.go"}, Goroutine: true,
+				Quick: map[string]int{"W": 2, "R": 0, "CLOSE": 0, "PB": 2}, Thorough: map[string]int{"W": 1, "R": 1, "CLOSE": 1, "PB": 1}, MaxSteps: 3_000_000},
+			{Name: "VxC41", Pkg: "github.com/goplus/xgo/x/fakenet", Files: []string{"c41/c41.go"}, Goroutine: true,
+				Quick: map[string]int{"W": 1, "R": 1, "CLOSE": 0, "PB": 2}, Thorough: map[string]int{"W": 2, "R": 2, "CLOSE": 0, "PB": 2}, MaxSteps: 3_000_000},
+		},
+	})
 }
